@@ -268,3 +268,20 @@ Proof.
   exact (conj (gau2_scaling ora L l r u HL Hl) (conj (exp1_scaling ora L l r u HL Hl) (exp2_scaling ora L l r u HL Hl))).
 Qed.
 Print Assumptions C01_radial_distribution_scaling.
+
+(* ---- exact VALUE-scale equivariance: the model with (s var, s nugget) gives sqrt(s) x the field of the model with (var, nugget)
+   for the same draws, for EVERY s > 0 (tiny SI-unit variances and nuggets included); the Fourier weights likewise *)
+Theorem C01_randmeth_value_scale :
+  forall (ora : nat -> list R -> R) (s var : R) (N : Z) (nugget : R) (ks : list (list R)) (z1 z2 : list R)
+         (pos : list (list R)) (noise : list R), 0 < s ->
+    randmeth_call (Rops ora) (s * var) N (s * nugget) ks z1 z2 pos noise
+    = map (Rmult (sqrt s)) (randmeth_call (Rops ora) var N nugget ks z1 z2 pos noise).
+Proof. exact randmeth_value_scale. Qed.
+Print Assumptions C01_randmeth_value_scale.
+
+Theorem C01_fourier_weights_value_scale :
+  forall (ora : nat -> list R -> R) (s : R) (spec dk : list R), 0 < s ->
+    fourier_spectrum_factor (Rops ora) (map (Rmult s) spec) dk
+    = map (Rmult (sqrt s)) (fourier_spectrum_factor (Rops ora) spec dk).
+Proof. exact fourier_weights_value_scale. Qed.
+Print Assumptions C01_fourier_weights_value_scale.
